@@ -140,7 +140,9 @@ def check_url(ctx, m, u, rng, classes):
 
 def check_host(ctx, m, h):
     """Bare hostname: normalize_hostname / fingerprint_hostname vs the URL-level functions on http://h/."""
-    u = "http://" + h.strip() + "/"  # whitespace around a bare hostname is surrounding whitespace, not part of a URL's authority
+    # control characters and whitespace around a bare hostname are surrounding junk (the documented cleaning: drop controls, then strip),
+    # not part of a URL's authority
+    u = "http://" + re.sub(r"[\x00-\x1f\x7f-\x9f]", "", h).strip() + "/"
     if not parseable(u):
         return
     for amp in (True, False):
@@ -224,10 +226,12 @@ DIRECTED_URLS = ["\x00http://example.com", "\x01\x02 http://www.example.com/x", 
                  "http://xn--tlrama-bvab.fr/x", "http://TÉLÉRAMA.FR", "http://amp-news.example.com/x.amp", "http://amp.example.com", "https://user:pw@www.example.com:8080/a?b=1#c",
                  "http://r.example.net/out?url=https%3A%2F%2Fwww.lemonde.fr%2Fa", "https://mashable-com.cdn.ampproject.org/c/s/mashable.com/2018/x.amp", "http://[::1]:8080/x", "http://1.2.3.4/x",
                  "localhost:8000/a", "//www.example.com/a", "example.com", "http://de.example.com.au/x", "http://us.shop.example.pvt.k12.ma.us/", "http://www.ck/x", "http://fr.foo.ck/",
-                 "http://example.com/a/b/../c?utm_source=1&z=2&a=1#!/route", "http://example.com/%7Efoo?é=%C3%A9#frag", "HTTP://EXAMPLE.COM:80/A", "http://example.com./x", "http://www.m.example.com/", "http://example.com/../x/y", "http://example.com/a/../../b?q=1", "http://münchen.de/x", "http://xn--mnchen-3ya.de/x"]
+                 "http://example.com/a/b/../c?utm_source=1&z=2&a=1#!/route", "http://example.com/%7Efoo?é=%C3%A9#frag", "HTTP://EXAMPLE.COM:80/A", "http://example.com./x", "http://www.m.example.com/", "http://example.com/../x/y", "http://example.com/a/../../b?q=1", "http://münchen.de/x", "http://xn--mnchen-3ya.de/x",
+                 "git://www.example.com/repo.git", "ssh://fr.example.com/x", "ftp://m.example.co.uk/a/", "wss://www.example.com:443/s", "custom://amp.example.com/x", "rtmp://WWW.Example.COM/live",
+                 "http://a.com/?url=HTTP://B.com", "http://a.com/?URL=HTTPS%3A%2F%2FWWW.B.ORG%2FX", "HTTP://A.COM/?NEXT=/HOME", "a.fr/login?next=/home"]
 DIRECTED_HOSTS = ["fr.facebook.com", "fr-FR.facebook.com", "www.lemonde.fr", "m.example.co.uk", "amp-x.example.com", "amp.example.com", "xn--tlrama-bvab.fr", "TÉLÉRAMA.fr", " Example.COM ",
                   "fr.example.com.au", "de.co.uk", "co.uk", "com", "us.fr.example.com", "www.fr.example.com", "fr.www.example.com", "en-us.example.com", "localhost", "1.2.3.4", "forum-m.example.com",
-                  "fr.foo.ck", "a.b.c.d.example.org", "\x00example.com"]
+                  "fr.foo.ck", "a.b.c.d.example.org", "\x00example.com", "\x00 example.com", " \x7f www.Example.com\x00 ", "\tm.example.com\x01"]
 
 
 def run(ctx):
@@ -273,7 +277,8 @@ def run(ctx):
             n += 1
             if n % 3:
                 h, (p, tr), q, f = grid[(n * 7 + ctx.shard * 13) % len(grid)] if n < len(grid) else rng.choice(grid)
-                base = G.base_case(host=h, path=copy.deepcopy(p), trailing=tr, query=copy.deepcopy(q), fragment=copy.deepcopy(f), scheme=rng.choice(["http://", "https://", "", "//"]))
+                base = G.base_case(host=h, path=copy.deepcopy(p), trailing=tr, query=copy.deepcopy(q), fragment=copy.deepcopy(f),
+                                   scheme=rng.choice(["http://", "https://", "", "//", "http://", "https://", "ftp://", "git://", "wss://", "custom://", "HTTPS://"]))
             else:
                 base = G.random_case(rng, max_tok=2, rich=True)
             cur = base
@@ -293,7 +298,7 @@ def run(ctx):
                 cl.add("idn")
             if rng.random() < 0.1 and u.startswith("http"):
                 from urllib.parse import quote
-                u = "http://r.example.net/out?%s=%s" % (rng.choice(["url", "u", "next"]), quote(u, safe=""))
+                u = "http://r.example.net/out?%s=%s" % (rng.choice(["url", "u", "next", "URL"]), quote(u if rng.random() < 0.7 else u.upper(), safe=""))
                 cl.add("redirect")
             check_url(ctx, m, u, rng, sorted(cl))
             try:
